@@ -44,6 +44,7 @@ InnerLayout(nm) ==
     [] nm = "I2" -> << E("ech","I"), E("sv","13"), E("sni","priv"), E("x1","xi"), E("sg","gi"), E("ks","ki"), E("alpn","ai") >>
     [] nm = "I3" -> << E("sni","priv"), E("sv","13"), E("ech","I") >>
     [] nm = "I4" -> << E("sni","priv"), E("alpn","ai"), E("sv","13"), E("ech","I"), E("ks","ki"), E("psk","pi") >>
+    [] nm = "I5" -> << E("sv","13"), E("ks","ki"), E("ech","I") >>                      \* no server name, no ALPN (a client dialling an IP literal)
 
 Compressible == {"sg", "ks", "x1", "gr", "psk"}
 
@@ -229,6 +230,7 @@ Init ==
   /\ (op \in NeedsEoe2 => run[1] # 0 /\ run[2] > run[1])
   /\ (op \in NoEoeOps => run[1] = 0)
   /\ (op = "unlistedSuite" => KeyPool(ck).suites # Suites)
+  /\ (op \in {"innerSniNameType", "eoeRefsSni"} => \E i \in DOMAIN InnerLayout(inm) : InnerLayout(inm)[i].t = "sni")
   /\ keynames \in KeyLists
   /\ hello = ApplyK(op, Honest(onm, inm, run, pad, sid, ck, suite), KeyPool(ck))
   /\ pc = "outer" /\ ci = 1 /\ pt = NoRes /\ j = 1 /\ r = 1 /\ p = 1 /\ newExt = <<>> /\ eoeSeen = FALSE /\ res = NoRes
@@ -321,7 +323,7 @@ Req_C02_Tamper == /\ (Done /\ op \in Tampers \ {"wrongInfo"} => res.kind # "acce
                   /\ (Done /\ op = "wrongInfo" /\ res.kind = "accept" => \E i \in DOMAIN Keys : Keys[i].cfg = "c1b")
 Req_C03 == Done /\ res.kind = "accept" /\ op = "none" =>
               /\ res.inner = Committed
-              /\ res.sni = "priv" /\ res.alpn = ValOf(Committed, "alpn")
+              /\ res.sni = ValOf(Committed, "sni") /\ res.alpn = ValOf(Committed, "alpn")
 Req_C04 == Done /\ op \in Faults /\ Holds => res.kind = "abort" /\ res.class = ClassOf(op)
 Req_C04_NeverAccept == Done /\ op \in Faults => res.kind # "accept"
 Req_C05 == Done /\ op \in PassOps => res.kind = "pass" /\ res.sni = Sni(hello) /\ res.alpn = Alpn(hello)
